@@ -81,7 +81,9 @@ int main(int argc, char **argv) {
 						nd::runTrace(design.getCircuit(), hlim::ClockRational(1, 100'000'000), it->second, trace, prog.id + "." + v + " replay");
 				}
 				for (size_t k = 0; k < nStim; k++) {
-					vh::Rng rng(seed * 1000003ull + std::hash<std::string>{}(prog.id) * 31ull + k);
+					std::string stimKey = prog.id;   // twins share their stimuli through an explicit `stimkey` statement
+					for (auto &st : prog.stmts) if (st[0] == "stimkey" && st.size() > 1) stimKey = st[1];
+					vh::Rng rng(seed * 1000003ull + std::hash<std::string>{}(stimKey) * 31ull + k);
 					int mode = k % 3;
 					std::vector<std::vector<std::string>> stim(cycles);
 					for (auto &cyc : stim) for (auto *p : pins.ins) cyc.push_back(randBits(rng, p->getConnectionType().width, mode));
